@@ -146,10 +146,14 @@ class Check:
             if st == "discharged" and kind == "proof":
                 # vacuity guard: the hypotheses must be satisfiable
                 s = z3.Solver()
-                s.set("timeout", 5000)
+                s.set("timeout", 1000)
                 for h in hyps:
                     s.add(h)
-                if s.check() == z3.unsat:
+                key = tuple(h.get_id() for h in hyps)
+                cache = self.__dict__.setdefault("_vac_cache", {})
+                if key not in cache:
+                    cache[key] = (s.check(), hyps)
+                if cache[key][0] == z3.unsat:
                     o.status = "vacuous"
                     o.detail = "hypotheses are unsatisfiable (vacuous obligation)"
             if len(self.samples) < 4 and st == "discharged":
@@ -204,6 +208,15 @@ class Check:
             if g is None:
                 continue
             outs.append(self.prove(tag, list(pre) + p.pc, g, func=func, replay=replay))
+        # obligations of paths whose path condition turns out unsatisfiable are vacuous only
+        # locally (the explorer keeps paths it cannot refute quickly); the vacuity GUARD is that
+        # not every path of the function is infeasible
+        vac = [o for o in outs if o.status == "vacuous"]
+        if vac and len(vac) < len(outs):
+            for o in vac:
+                o.status = "discharged"
+                o.detail = "infeasible path (path condition unsatisfiable)"
+                o.kind = "infeasible-path"
         return outs
 
     def record(self, name, ok: bool, detail="", func=None, kind="proof", backend="structural"):
